@@ -74,6 +74,9 @@ pub enum MOp {
     DropPool(u8),
     /// many guards at once on container c (more than the fast slots)
     Hold(u8, u8),
+    /// replace through `rcu` (an internal load, then a compare-and-swap): the previous value comes
+    /// out as with a swap
+    Rcu(u8, MVal),
     /// store a clone of handle i (something a swap or load_full gave out earlier - for a Weak
     /// possibly with its target already dropped) into container c, if the classes match
     StoreHandle(u8, u8),
@@ -109,6 +112,7 @@ pub fn case_strategy() -> impl Strategy<Value = MCase> {
         1 => (0u8..3).prop_map(MOp::DropPool),
         1 => ((0u8..4), 2u8..12).prop_map(|(c, n)| MOp::Hold(c, n)),
         2 => ((0u8..4), any::<u8>()).prop_map(|(c, i)| MOp::StoreHandle(c, i)),
+        2 => ((0u8..4), val()).prop_map(|(c, v)| MOp::Rcu(c, v)),
     ];
     (any::<bool>(), any::<bool>(), proptest::collection::vec(kind, 1..5), proptest::collection::vec(val(), 4), proptest::collection::vec(op, 1..40), any::<bool>(), any::<bool>())
         .prop_map(|(rc_family, fallback_only, kinds, init, ops, cont_first, consume)| MCase { rc_family, fallback_only, kinds, init, ops, cont_first, consume })
@@ -731,6 +735,9 @@ where
     }
 
     fn write(&mut self, c: usize, v: MVal, swap: bool) -> Result<(), String> {
+        self.write_(c, v, swap, false)
+    }
+    fn write_(&mut self, c: usize, v: MVal, swap: bool, via_rcu: bool) -> Result<(), String> {
         self.stats.writes += 1;
         let kind = self.kind_of(c);
         let strong = Self::class_strong(kind);
@@ -756,7 +763,7 @@ where
             Cont::S(x) => {
                 let n = n_s.unwrap();
                 if swap {
-                    let o = x.swap(n);
+                    let o = if via_rcu { x.rcu(move |_| n.clone()) } else { x.swap(n) };
                     out = Some((<F::S as RefCnt>::as_ptr(&o) as *const Tr, Some(H::S(o))));
                 } else {
                     x.store(n);
@@ -764,7 +771,7 @@ where
             }
             Cont::O(x) => {
                 if swap {
-                    let o = x.swap(n_s);
+                    let o = if via_rcu { x.rcu(move |_| n_s.clone()) } else { x.swap(n_s) };
                     out = Some((<Option<F::S> as RefCnt>::as_ptr(&o) as *const Tr, o.map(H::S)));
                 } else {
                     x.store(n_s);
@@ -772,7 +779,7 @@ where
             }
             Cont::W(x) => {
                 if swap {
-                    let o = x.swap(n_w);
+                    let o = if via_rcu { x.rcu(move |_| n_w.clone()) } else { x.swap(n_w) };
                     let p = <F::W as RefCnt>::as_ptr(&o) as *const Tr;
                     out = Some((p, if p.is_null() { None } else { Some(H::W(o)) }));
                 } else {
@@ -782,7 +789,7 @@ where
             Cont::OW(x) => {
                 let n = if a.is_some() { Some(n_w) } else { None };
                 if swap {
-                    let o = x.swap(n);
+                    let o = if via_rcu { x.rcu(move |_| n.clone()) } else { x.swap(n) };
                     out = Some((<Option<F::W> as RefCnt>::as_ptr(&o) as *const Tr, o.map(H::W)));
                 } else {
                     x.store(n);
@@ -1064,6 +1071,7 @@ where
                 MOp::LoadFull(c) => w.load_full(c as usize % nc),
                 MOp::Store(c, v) => w.write(c as usize % nc, v, false),
                 MOp::Swap(c, v) => w.write(c as usize % nc, v, true),
+                MOp::Rcu(c, v) => w.write_(c as usize % nc, v, true, true),
                 MOp::Cas(c, a, b) => w.cas(c as usize % nc, a, b),
                 MOp::DerefGuard(i) if !w.guards.is_empty() => {
                     let i = i as usize * w.guards.len() >> 8;
